@@ -215,11 +215,17 @@ fn update<H: HashAlgorithm>(
 
     let updater = RangeUpdater::<H>::new(root, shared.clone(), write_pass, &page_cache);
 
+    #[cfg(feature = "verif")]
+    crate::verif::sched_point("merkle_worker_update");
+
     // one lucky thread gets the master write pass.
     match updater.update(&mut seeker, &mut output, &mut page_set, warm_ups)? {
         None => return Ok(output),
         Some(write_pass) => write_pass,
     };
+
+    #[cfg(feature = "verif")]
+    crate::verif::sched_point("merkle_root_handoff");
 
     let pending_ops = shared.take_root_pending();
     let mut root_page_updater = PageWalker::<H>::new(root, None);
